@@ -85,6 +85,15 @@ def run_programs(check, wp, family, behs, table, seed, layouts, vers=None):
     return [(m, t, r) for m, t, r in zip(metas, tasks, res)]
 
 
+def halt_programs(check, wp, family, seed, layouts, vers=None, num=40):
+    """programs of the form  <statement> __halt_compiler ( ) ; <raw data>  (root category "toplast" of Syntax.tla)"""
+    table, behs = syntax.generate(check, family, rootcat="toplast", rootmax=1, num=num, seed=seed + 9, depth=2)
+    res = run_programs(check, wp, family, behs, table, seed, layouts, vers)
+    for m, t, r in res:
+        m["i"] += 1000000
+    return res
+
+
 def coverage(table, family, results):
     ids = [v["id"] for v in table["variants"] if v["fam"] in ("both", family, family + "g")]
     used = set()
